@@ -54,7 +54,10 @@ def value_menu():
     for t in itertools.product(STR_ALPHA, repeat=n):
       out.append(("str", "".join(t)))
   for s in ["12", "-5", "1.5", "1e3", "[1]", '{"a":1}', "1AF0", "c,1,2",
-            "f,1.5", "x", "1_0", " 5", "inf", "1af0", "C,256", "c,128"]:
+            "f,1.5", "x", "1_0", " 5", "inf", "1af0", "C,256", "c,128",
+            "f,.", "f,-", "f,,1", "f,1.", "f,+.", "f,e5", "c,", "c,-", "c,+", "c,1,",
+            ".", "-", "+", "e5", "1.", "-.", "[", "{", "]", '{"a":}', "[1,]",
+            "1A,", "0x1A", "1$", "$", "++"]:
     out.append(("str", s))
   for v in json_values():
     out.append(("json", json.dumps(v)))
